@@ -336,6 +336,113 @@ Section LoopProofs.
 End LoopProofs.
 
 (* ================================================================================================ *)
+(* lineage: every individual is created after its parents, so the heap of the composed run is        *)
+(* well-founded and the lineage walker of C06 terminates on it                                        *)
+(* ================================================================================================ *)
+Section LoopLineage.
+  Variables C A X : Type.
+  Variable cparents : C -> list nat.
+  Variable a_items : A -> list nat.
+  Variable a_empty : A.
+  Variable evaluate : nat -> nat -> list C -> list nat -> list nat.
+  Variable arch_update : list C -> list (label * list nat) -> A -> list nat -> A.
+  Variable init_cells : list C.
+  Variable init_size : nat.
+  Variable extend : list C -> list nat -> nat -> list C * list nat.
+  Variable regularize : nat -> list C -> list nat -> list C * list nat.
+  Variable reproduce : nat -> list C -> X -> list nat -> option (list C * list nat) * X.
+  Variable inherit : nat -> list C -> list nat -> list nat -> list nat.
+  Variable elitism : nat -> list C -> list nat -> list nat -> list nat.
+  Variable div_freq div_min : nat.
+  Variable div_unique : nat -> list C -> list nat -> list nat.
+  Variable div_refill : nat -> list C -> list nat -> nat -> list C.
+  Variable stop : nat -> cstate C A X -> bool.
+
+  (* parents exist when the child is created: ParentOperator(parent_individuals=...) names existing objects *)
+  Definition wfh (h : list C) : Prop :=
+    forall u c, nth_error h u = Some c -> forall p, In p (cparents c) -> p < u.
+  Definition cells_wf (h cells : list C) : Prop :=
+    forall i c, nth_error cells i = Some c -> forall p, In p (cparents c) -> p < length h + i.
+
+  Lemma wfh_app h cells : wfh h -> cells_wf h cells -> wfh (h ++ cells).
+  Proof.
+    intros W Cw u c Hn p Hp. destruct (Nat.lt_ge_cases u (length h)) as [L|G].
+    - rewrite nth_error_app1 in Hn by exact L. eapply W; eassumption.
+    - rewrite nth_error_app2 in Hn by exact G. specialize (Cw _ _ Hn p Hp). lia.
+  Qed.
+
+  Hypothesis W_init : forall c, In c init_cells -> cparents c = [].
+  Hypothesis W_ext : forall h ids n cells acc, extend h ids n = (cells, acc) -> cells_wf h cells.
+  Hypothesis W_reg : forall k h pop c1 sel, regularize k h pop = (c1, sel) -> cells_wf h c1.
+  Hypothesis W_rep : forall k h x sel c2 new x', reproduce k h x sel = (Some (c2, new), x') -> cells_wf h c2.
+  Hypothesis W_refill : forall k h l n, cells_wf h (div_refill k h l n).
+
+  Notation update_population := (update_population C A X a_items arch_update).
+  Notation evolve := (evolve C A X a_items evaluate regularize reproduce inherit elitism div_freq div_min div_unique div_refill).
+  Notation loop := (loop C A X a_items evaluate arch_update regularize reproduce inherit elitism div_freq div_min div_unique div_refill stop).
+  Notation initial_population := (initial_population C A X a_items a_empty evaluate arch_update init_cells init_size extend).
+  Notation optimise := (optimise C A X a_items a_empty evaluate arch_update init_cells init_size extend regularize
+                                 reproduce inherit elitism div_freq div_min div_unique div_refill stop).
+
+  Lemma wfh_initial x0 : wfh (cs_heap (initial_population x0)).
+  Proof.
+    assert (W0 : wfh init_cells).
+    { intros u c Hn p Hp. rewrite (W_init c (nth_error_In _ _ Hn)) in Hp. destruct Hp. }
+    unfold Compose.initial_population. destruct (length init_cells <? init_size); [|exact W0].
+    destruct (extend init_cells (seq 0 (length init_cells)) init_size) as [cells acc] eqn:E. simpl.
+    apply wfh_app; [exact W0|eapply W_ext, E].
+  Qed.
+
+  Lemma wfh_evolve k s s' np : wfh (cs_heap s) -> evolve k s = Some (s', np) -> wfh (cs_heap s').
+  Proof.
+    intros W. unfold Compose.evolve.
+    destruct (regularize k (cs_heap s) (cs_pop s)) as [c1 sel] eqn:Er.
+    destruct (reproduce k (cs_heap s ++ c1) (cs_aux s) sel) as [[[c2 new]|] x'] eqn:Ep; [|discriminate].
+    assert (W2 : wfh ((cs_heap s ++ c1) ++ c2)).
+    { apply wfh_app; [apply wfh_app; [exact W|eapply W_reg, Er]|eapply W_rep, Ep]. }
+    destruct (div_due C A X div_freq s); intros E; injection E as <- <-; simpl; [|exact W2].
+    apply wfh_app; [exact W2|apply W_refill].
+  Qed.
+
+  Lemma wfh_loop fuel : forall k s, wfh (cs_heap s) -> wfh (cs_heap (loop fuel k s)).
+  Proof.
+    induction fuel as [|f IH]; intros k s W; simpl; [exact W|].
+    destruct (stop k s); [exact W|].
+    destruct (evolve k s) as [[s' np]|] eqn:E; [|exact W].
+    apply IH. simpl. eapply wfh_evolve; eassumption.
+  Qed.
+
+  Theorem wfh_optimise fuel x0 : wfh (cs_heap (optimise fuel x0)).
+  Proof. unfold Compose.optimise. simpl. apply wfh_loop, wfh_initial. Qed.
+End LoopLineage.
+
+(* ---------- the relation evaluated on real transitions implies the clauses it stands for ---------- *)
+Lemma nodup_b_sound l : nodup_b l = true -> NoDup l.
+Proof.
+  induction l as [|x l IH]; simpl; intros H; [constructor|].
+  apply andb_true_iff in H as [H1 H2]. constructor; [|apply IH, H2].
+  intros Hin. apply negb_true_iff in H1.
+  assert (existsb (Nat.eqb x) l = true); [|congruence].
+  apply existsb_exists. exists x. split; [exact Hin|apply Nat.eqb_refl].
+Qed.
+
+Lemma mem_In u l : mem u l = true -> In u l.
+Proof. unfold mem. intros H. apply existsb_exists in H as (y & Hy & E). apply Nat.eqb_eq in E. subst. exact Hy. Qed.
+
+Theorem step_admits_sound o : step_admits o = true ->
+  NoDup (os_next o) /\
+  (forall u, In u (os_next o) -> hflag h_valid (os_heap o) u = true /\ hflag h_verified (os_heap o) u = true) /\
+  NoDup (os_arch_next o) /\ incl (os_arch_next o) (os_arch_prev o ++ os_next o).
+Proof.
+  unfold step_admits. intros H.
+  apply andb_true_iff in H as [H _]. apply andb_true_iff in H as [Hm Ha].
+  apply andb_true_iff in Hm as [Hn Hf]. apply andb_true_iff in Ha as [Ha _]. apply andb_true_iff in Ha as [Han Has].
+  split; [apply nodup_b_sound, Hn|]. split; [|split; [apply nodup_b_sound, Han|]].
+  - intros u Hu. rewrite forallb_forall in Hf. specialize (Hf u Hu). apply andb_true_iff in Hf. exact Hf.
+  - intros u Hu. unfold subset_nat in Has. rewrite forallb_forall in Has. apply mem_In, Has, Hu.
+Qed.
+
+(* ================================================================================================ *)
 (* the archives of Archive/Hof.v and Archive/Pareto.v: members were shown, no uid twice - for EVERY  *)
 (* comparison (no hypothesis on the fitness values for the hall of fame)                             *)
 (* ================================================================================================ *)
@@ -822,5 +929,24 @@ Section EvoProofs.
       destruct (evo_members fuel w0 _ Hc) as [N G]. simpl in N, G. split; [exact N|].
       intros u Hu. destruct (G u Hu) as [Va Ve]. split; [exact Va|]. split; [exact Ve|].
       apply (member_native_le (cs_calls r) (g_num g) (g_label g, g_members g) u Hk). simpl. apply mem_of_In, Hu.
+  Qed.
+
+  (* lineage of the composed run: created after the parents -> the walker of C06 terminates *)
+  Hypothesis W_init : forall c, In c init_cells -> cc_parents c = [].
+  Hypothesis W_ext : forall h ids n cells acc, extend h ids n = (cells, acc) -> cells_wf ccell cc_parents h cells.
+  Hypothesis W_reg : forall k h pop c1 sel, regularize k h pop = (c1, sel) -> cells_wf ccell cc_parents h c1.
+  Hypothesis W_cells : forall k h sel, cells_wf ccell cc_parents h (rep_cells k h sel).
+  Hypothesis W_refill : forall k h l n, cells_wf ccell cc_parents h (div_refill k h l n).
+
+  Theorem evo_lineage_wf fuel w0 : wf_heap (map to_hind (cs_heap (run fuel w0))).
+  Proof.
+    assert (W : wfh ccell cc_parents (cs_heap (run fuel w0))).
+    { unfold evo_optimise. apply wfh_optimise; auto.
+      intros k h x sel c2 new x'. unfold c_reproduce.
+      destruct (Reproduction.reproduce _ _ _ _ _) as [[[l|] w'] ss]; [|discriminate].
+      intros E. injection E as <- <- <-. apply W_cells. }
+    intros r p Hp. unfold parents_of in Hp. rewrite nth_error_map in Hp.
+    destruct (nth_error (cs_heap (run fuel w0)) r) as [c|] eqn:E; simpl in Hp; [|destruct Hp].
+    eapply W; eassumption.
   Qed.
 End EvoProofs.
